@@ -12,11 +12,13 @@ RULE = ('generated layouts: struct parameter with 2..3 members (combined or sepa
         'not), float-enum label sets (plain labels with unit prefixes, explicit indices, explicit values), limit '
         'configurations (min, max, limits pair) and 1..3 controllers on one output; random operation sequences up to '
         'depth 12 (reads, writes through the module and through the dispatcher, driver-side assignments, hardware '
-        'drift); invariants after EVERY operation, a divergence is attributed to the first operation after which it '
+        'drift, transient driver faults in a member read / write); invariants after EVERY operation, a divergence is attributed to the first operation after which it '
         'appears. distinct = (layout, operation sequence); non-trivial = sequence containing a write or an assignment')
 ASSUMPTIONS = ['a read from the hardware may legitimately change values; consistency is judged after each operation returns',
-               'hardware drift (the scripted device changes a value by itself) creates no obligation until the next read']
-REQUIRED = ['struct_sequences', 'struct_invariant_checks', 'floatenum_sequences', 'floatenum_invariant_checks',
+               'hardware drift (the scripted device changes a value by itself) creates no obligation until the next read',
+               'after an operation in which an injected driver fault fired, struct and members may disagree until the next '
+               'successful read of the struct; from then on they must agree again after every operation']
+REQUIRED = ['struct_sequences', 'struct_invariant_checks', 'struct_resynchronised_after_fault', 'floatenum_sequences', 'floatenum_invariant_checks',
             'limit_sequences', 'limit_requests_outside', 'limit_inverted_pairs', 'control_sequences', 'control_takeovers']
 
 N = {'quick': 150, 'thorough': 8000}
@@ -51,18 +53,36 @@ class World:
         hw = {k: float(rng.randint(0, 50)) for k in members}
         ns = {'__module__': __name__,
               'ctrl': self.StructParam('c', {k: C.Parameter(k, C.FloatRange(0, 100)) for k in members}, prefix='m_', readonly=readonly)}
+        # transient driver faults: the next read / write touching the armed member fails once
+        from frappy.errors import HardwareError
+        fail = {'read': set(), 'write': set(), 'fired': 0}
+
+        def maybe_fail(kind, keys):
+            hit = fail[kind] & set(keys)
+            if hit:
+                fail[kind] -= hit
+                fail['fired'] += 1
+                raise HardwareError(f'transient {kind} failure at {sorted(hit)}')
         if combined:
-            ns['read_ctrl'] = lambda self: dict(hw)
+            def read_ctrl(self):
+                maybe_fail('read', members)
+                return dict(hw)
+            ns['read_ctrl'] = read_ctrl
             if not readonly:
                 def write_ctrl(self, v):
+                    maybe_fail('write', members)
                     hw.update(v)
                     return dict(hw)
                 ns['write_ctrl'] = write_ctrl
         else:
             for k in members:
-                ns[f'read_m_{k}'] = (lambda self, k=k: hw[k])
+                def rd(self, k=k):
+                    maybe_fail('read', [k])
+                    return hw[k]
+                ns[f'read_m_{k}'] = rd
                 if not readonly:
                     def w(self, v, k=k):
+                        maybe_fail('write', [k])
                         hw[k] = v
                         return v
                     ns[f'write_m_{k}'] = w
@@ -74,16 +94,27 @@ class World:
         layout = f'{"combined" if combined else "separate"}{"-ro" if readonly else ""}'
         ops = []
         diverged = False
+        suspended = False     # after a failed access the pair may disagree until the next successful read of the struct
         for step in range(rng.randint(3, 12)):
-            choices = ['read_struct', 'read_member', 'hw_drift', 'assign_member', 'assign_struct', 'read_struct_wire']
+            choices = ['read_struct', 'read_member', 'hw_drift', 'assign_member', 'assign_struct', 'read_struct_wire', 'fail_read']
+            if not readonly:
+                choices.append('fail_write')
             if not readonly:
                 choices += ['write_struct', 'write_member', 'change_struct_wire', 'change_member_wire', 'change_partial_wire']
             op = rng.choice(choices)
             k = rng.choice(members)
             v = float(rng.randint(0, 100))
             full = {kk: float(rng.randint(0, 100)) for kk in members}
+            if suspended and op.startswith('assign'):
+                # driver-side assignments are the mechanism of listed findings; while nothing is judged (after a fault)
+                # they would be blamed on the re-synchronising read
+                continue
             ops.append([op, k, v])
+            fired0 = fail['fired']
             try:
+                if op in ('fail_read', 'fail_write'):
+                    fail[op[5:]].add(k)
+                    continue
                 if op == 'read_struct':
                     m.read_ctrl()
                 elif op == 'write_struct':
@@ -108,9 +139,23 @@ class World:
                 elif op == 'change_member_wire':
                     node.dispatcher.handle_request(conn, ('change', f's:_m_{k}', v))
             except Exception as e:
+                if fail['fired'] > fired0 and isinstance(e, self.SECoPError):
+                    # the injected driver fault surfaced as an error of this operation
+                    r.count('struct_driver_faults_surfaced')
+                    suspended = True
+                    continue
                 r.violation(f'C18/struct/{layout}/raises/{op}', f'{op} raised {type(e).__name__}: {e}'[:200],
                             {'sub': 'struct', 'combined': combined, 'readonly': readonly, 'members': members, 'ops': ops})
                 break
+            if fail['fired'] > fired0:
+                r.count('struct_driver_faults_swallowed')    # the operation caught the fault itself (error stored as read error)
+                suspended = True
+                continue
+            if suspended:
+                if op not in ('read_struct', 'read_struct_wire'):
+                    continue
+                suspended = False
+                r.count('struct_resynchronised_after_fault')
             r.count('struct_invariant_checks')
             st = m.ctrl
             bad = [kk for kk in members if st.get(kk) != getattr(m, 'm_' + kk)]
